@@ -492,7 +492,7 @@ fn mut_seq(xs: &mut Vec<V>, rng: &mut Rng, tpl: &Templates, c: Ctxt) -> &'static
         }
         _ => {
             // grow: by clones of existing elements or of a learned template, to typical capacities
-            let target = *rng.pick(&[1usize, 2, 3, 4, 7, 8, 15, 16, 31, 32, 33, 39, 40, 60, 61, 63, 64, 65, 127, 128, 129, 255, 256, 257, 260, 287, 288, 300, 389, 390, 391]);
+            let target = *rng.pick(&[1usize, 2, 3, 4, 7, 8, 15, 16, 30, 31, 32, 33, 39, 40, 60, 61, 62, 63, 64, 65, 92, 93, 94, 96, 124, 127, 128, 129, 155, 186, 248, 255, 256, 257, 260, 287, 288, 300, 372, 389, 390, 391]);
             let tplv = xs.first().cloned().or_else(|| tpl.elem.get(&c).cloned());
             if let Some(t) = tplv {
                 // half of the time exact clones (many entries with the same key), otherwise
